@@ -108,4 +108,118 @@ Section Oracle.
     exact (He _ _ Hm).
   Qed.
 
+  (** ** Completeness up to the length bound, at a fixpoint *)
+
+  Lemma step_app_inv a b c : step G (a ++ b) c ->
+    (exists a', c = a' ++ b /\ step G a a') \/ (exists b', c = a ++ b' /\ step G b b').
+  Proof.
+    intros H. inversion H as [u v p Hp E1 E2]. subst c.
+    apply app_eq_app in E1 as [l [[E3 E4]|[E3 E4]]].
+    - (* u = a ++ l : the redex lies in b *)
+      right. subst u. exists (l ++ body p ++ v). split; [now rewrite <- app_assoc|].
+      rewrite E4. now constructor.
+    - (* a = u ++ l *)
+      destruct l as [|x l].
+      + right. rewrite app_nil_r in E3. subst a. simpl in E4. subst b.
+        exists (body p ++ v). split; [reflexivity|].
+        exact (step_intro G [] v p Hp).
+      + left. simpl in E4. inversion E4; subst x v. subst a.
+        exists (u ++ body p ++ l). split; [now rewrite <- !app_assoc|]. now constructor.
+  Qed.
+
+  Lemma derivesN_app_inv m : forall a b c, derivesN G m (a ++ b) c ->
+    exists c1 c2 m1 m2, c = c1 ++ c2 /\ derivesN G m1 a c1 /\ derivesN G m2 b c2 /\ m1 + m2 = m.
+  Proof.
+    induction m as [|m IH]; intros a b c H.
+    - inversion H; subst. exists a, b, 0, 0. repeat split; constructor.
+    - inversion H as [|n x y z Hs Hd]; subst.
+      apply step_app_inv in Hs as [[a' [E Hs]]|[b' [E Hs]]]; subst y.
+      + destruct (IH _ _ _ Hd) as [c1 [c2 [m1 [m2 [E [H1 [H2 Hm]]]]]]].
+        exists c1, c2, (S m1), m2. repeat split; auto; [econstructor; eauto|lia].
+      + destruct (IH _ _ _ Hd) as [c1 [c2 [m1 [m2 [E [H1 [H2 Hm]]]]]]].
+        exists c1, c2, m1, (S m2). repeat split; auto; [econstructor; eauto|lia].
+  Qed.
+
+  Lemma derivesN_terminal m a c : derivesN G m [Tm a] c -> c = [Tm a] /\ m = 0.
+  Proof.
+    intros H. inversion H as [|n x y z Hs Hd]; subst; auto.
+    inversion Hs as [u v p Hp E1 E2]. destruct u as [|? [|? ?]]; discriminate.
+  Qed.
+
+  (** [x] is a concatenation of one known string per symbol of [b] *)
+  Inductive matches (e : env) : list sym -> list nat -> Prop :=
+  | m_nil : matches e [] []
+  | m_tm a b x : matches e b x -> matches e (Tm a :: b) (a :: x)
+  | m_nt A b u x : In u (env_get e A) -> matches e b x -> matches e (Nt A :: b) (u ++ x).
+
+  Lemma expand_complete e b x : matches e b x -> forall n, length x <= n -> In x (expand e n b).
+  Proof.
+    induction 1 as [|a b x Hm IH|A b u x Hu Hm IH]; intros n Hn; simpl.
+    - now left.
+    - destruct n as [|n]; simpl in Hn; [lia|]. apply in_map. apply IH. lia.
+    - rewrite app_length in Hn. apply in_flat_map. exists u. split; auto.
+      assert (E : (length u <=? n) = true) by (apply Nat.leb_le; lia). rewrite E.
+      apply in_map. apply IH. lia.
+  Qed.
+
+  Section Closed.
+    Variable n : nat.
+    Variable e : env.
+    Hypothesis Hclosed : closed G n e = true.
+
+    Definition complete_upto (k : nat) : Prop :=
+      forall j, j <= k -> forall A x, derivesN G j [Nt A] (map Tm x) -> length x <= n -> In x (env_get e A).
+
+    Lemma derivesN_matches k : complete_upto k ->
+      forall b m x, m <= k -> derivesN G m b (map Tm x) -> length x <= n -> matches e b x.
+    Proof.
+      intros Hk. induction b as [|X b IH]; intros m x Hm Hd Hn.
+      - inversion Hd as [|? ? ? ? Hs]; subst.
+        + destruct x; [constructor|discriminate].
+        + inversion Hs as [u v p Hp E1 E2]. destruct u; discriminate.
+      - change (X :: b) with ([X] ++ b) in Hd.
+        apply derivesN_app_inv in Hd as [c1 [c2 [m1 [m2 [E [H1 [H2 Hsum]]]]]]].
+        apply map_eq_app in E as [x1 [x2 [Ex [E1 E2]]]]. subst x c1 c2.
+        rewrite app_length in Hn.
+        assert (Hb : matches e b x2) by (apply (IH m2); [lia|exact H2|lia]).
+        destruct X as [a|A].
+        + apply derivesN_terminal in H1 as [H1 _].
+          destruct x1 as [|a' [|? ?]]; try discriminate. inversion H1; subst a'.
+          simpl. now constructor.
+        + constructor; auto. apply (Hk m1); [lia|exact H1|lia].
+    Qed.
+
+    Lemma closed_complete k : complete_upto k.
+    Proof.
+      induction k as [|k IH]; intros j Hj A x Hd Hn.
+      - assert (j = 0) by lia. subst j. inversion Hd as [E|]; subst. destruct x; discriminate.
+      - destruct (Nat.eq_dec j (S k)) as [->|Hne]; [|apply (IH j); auto; lia].
+        inversion Hd as [|m y z c Hs Hd']; subst.
+        inversion Hs as [u v p Hp E1 E2].
+        destruct u as [|? [|? ?]]; try discriminate. simpl in E1. inversion E1; subst A v. clear E1.
+        simpl in E2. rewrite app_nil_r in E2. subst z.
+        assert (Hm : matches e (body p) x) by (eapply (derivesN_matches k IH); [|exact Hd'|exact Hn]; lia).
+        apply expand_complete with (n := n) in Hm; [|exact Hn].
+        unfold closed in Hclosed. rewrite forallb_forall in Hclosed. specialize (Hclosed p Hp).
+        rewrite forallb_forall in Hclosed. apply mem_str_In. now apply Hclosed.
+    Qed.
+  End Closed.
+
+  Lemma lang_fix_closed fuel n : forall e e', lang_fix fuel G n e = Some e' -> closed G n e' = true.
+  Proof.
+    induction fuel as [|f IH]; intros e e' H; simpl in H; [discriminate|].
+    destruct (closed G n e) eqn:E.
+    - inversion H; now subst.
+    - eapply IH; eauto.
+  Qed.
+
+  Theorem lang_upto_complete fuel n l x :
+    lang_upto fuel G n = Some l -> L G x -> length x <= n -> mem_str x l = true.
+  Proof.
+    unfold lang_upto. destruct (lang_fix fuel G n []) as [e|] eqn:E; [|discriminate].
+    intros H HL Hn. inversion H; subst l. apply mem_str_In.
+    apply lang_fix_closed in E. unfold L in HL. apply derives_derivesN in HL as [k Hk].
+    exact (closed_complete n e E k k (le_n _) _ _ Hk Hn).
+  Qed.
+
 End Oracle.
